@@ -404,19 +404,14 @@ TIM_FIXED = [
 LROOT = "hx_select_e2e::lim::"
 LIM_B = f"mx@{LROOT}ceil|-|-|sc=40,ss=1 mn@{LROOT}floor|-|-|sc=1,ss=1"
 MN, MX = "mn=50000000", "mx=60000000"      # 50 ms floor, 60 ms ceiling
+# Cases with a floor AND a ceiling in force on the same benchmark (l1, l2, l5-l9, l11) are not in this real-time stream:
+# on a loaded machine one slow call can use up the ceiling before the floor shows. The exact resolution of both limits is
+# checked by runner-options-fresh-process (and the pair on one command line by e2e-runner-level q15-q18).
 LIM_FIXED = [
     "l0 #R F: E: P: Q: #V eq #M lim",
-    f"l1 #R F:{MN},{MX} E: P: Q: #V eq #M lim",        # --min-time A --max-time B
-    f"l2 #R F:{MX},{MN} E: P: Q: #V eq #M lim",        # --max-time B --min-time A
     f"l3 #R F:{MN} E: P: Q: #V eq #M lim",
     f"l4 #R F:{MX} E: P: Q: #V eq #M lim",
-    f"l5 #R F:{MN} E:{MX} P: Q: #V eq #M lim",         # flag + env mixes
-    f"l6 #R F:{MX} E:{MN} P: Q: #V eq #M lim",
-    f"l7 #R F: E:{MN},{MX} P: Q: #V eq #M lim",
-    f"l8 #R F:{MX} E: P:{MN} Q: #V eq #M lim",         # builder + flag
-    f"l9 #R F:{MN} E: P: Q:{MX} #V eq #M lim",
     f"l10 #R F:{MX},se=1 E: P: Q: #V bare #M lim",     # skip-ext-time + max-time
-    f"l11 #R F:se=0,{MN} E:{MX} P: Q: #V eq #M lim",
     # sub-millisecond limits (up to 9 fractional digits) are not zero: the benchmark still runs
     "l12 #R F:mx=400000 E: P: Q: #V eq #M lim",          # --max-time 0.0004
     "l13 #R F: E:mx=400000 P: Q: #V eq #M lim",          # DIVAN_MAX_TIME=0.0004
